@@ -961,6 +961,7 @@ func (x *Exec) run(f *frame) Val {
 					}
 					f.regs[f.idx[in]] = b.B[i]
 				case *MapV:
+					x.mapRace(b, false, in)
 					e, ok := x.mapLookup(b, x.get(f, in.Index))
 					var v Val
 					if ok {
@@ -982,6 +983,7 @@ func (x *Exec) run(f *frame) Val {
 					panic(panicV{msg: "assignment to entry in nil map at " + x.pos(in)})
 				}
 				k := x.get(f, in.Key)
+				x.mapRace(m, true, in)
 				if e, ok := x.mapLookup(m, k); ok {
 					e.V = copyVal(x.get(f, in.Value))
 				} else {
@@ -1363,6 +1365,13 @@ func (x *Exec) builtin(name string, args []Val, c *ssa.CallCommon, site string) 
 			return b
 		}
 	}
+	if name == "ssa:wrapnilchk" {
+		// wrapper of a value-receiver method called through a pointer: a nil pointer panics
+		if p, ok := args[0].(PtrV); ok && p.C == nil {
+			panic(panicV{msg: "value method called using nil pointer at " + x.here(site)})
+		}
+		return args[0]
+	}
 	panic(unsupported{"builtin " + name + " at " + x.here(site)})
 }
 
@@ -1426,4 +1435,21 @@ func (x *Exec) addrOf(c *Cell) uint64 {
 		x.addrs[c] = a
 	}
 	return a
+}
+
+// mapRace records an access to a plain Go map as a whole (the Go race detector and the runtime's
+// "concurrent map read and map write" check both treat the map as one object).
+func (x *Exec) mapRace(m *MapV, write bool, in ssa.Instruction) {
+	if m == nil || !x.opts.Races || len(x.gors) < 2 {
+		return
+	}
+	if m.race == nil {
+		m.race = &Cell{}
+	}
+	where := func() string { return "map at " + x.pos(in) }
+	if write {
+		x.raceWrite(m.race, where)
+	} else {
+		x.raceRead(m.race, where)
+	}
 }
